@@ -45,13 +45,21 @@ func concProgram(t jsonline.Template, g int, iters int) string {
 			src.Set("a", g*1000+i)
 			// date-times as RFC 3339 strings, different in every goroutine and iteration
 			src.Set("d", time.Unix(1632518460+int64(g)*86400+int64(i)*61, 0).In(time.FixedZone("", (g%5-2)*3600)).Format(time.RFC3339))
+			// a date column fed with an epoch integer or a time.Time, rendered while other goroutines render date-times
+			if i%2 == 0 {
+				src.Set("dd", int64(1632518460+g*86400+i))
+			} else {
+				src.Set("dd", time.Unix(1600000000+int64(g)*86400, 0).UTC())
+			}
 			r, err := t.CreateRow(src)
 			if err == nil {
 				sb.WriteString(r.DebugString())
+				b, _ := r.MarshalJSON()
+				sb.Write(b)
 			}
 		case 5:
 			var out bytes.Buffer
-			in := fmt.Sprintf("{\"a\":%d}\n{\"a\":\"bad\"}\n{\"bin\":\"AQI=\",\"d\":%d}\n{\"d\":\"%s\",\"pad\":\"%s\"}\n", g, 1632518460+i,
+			in := fmt.Sprintf("{\"a\":%d}\n{\"a\":\"bad\"}\n{\"bin\":\"AQI=\",\"d\":%d,\"dd\":%d}\n{\"d\":\"%s\",\"pad\":\"%s\"}\n", g, 1632518460+i, 1632518460+g*86400,
 				time.Unix(1600000000+int64(g)*3600+int64(i), 0).UTC().Format(time.RFC3339), strings.Repeat(string(rune('a'+g%26)), 200+g))
 			imp := t.GetImporter(strings.NewReader(in))
 			exp := t.GetExporter(&out)
@@ -82,7 +90,7 @@ func genC20(cw *caseWriter, seed uint64, tier string) {
 	for round := 0; round < rounds; round++ {
 		cols := []colDesc{{name: "a", format: "numeric", ty: "int"}, {name: "bin", format: "binary", ty: "bytes"},
 			{name: "s", isSub: true, sub: []colDesc{{name: "zz", format: "auto", ty: "none"}, {name: "aa", format: "string", ty: "none"}}},
-			{name: "d", format: "datetime", ty: "none"}, {name: "h", format: "hidden", ty: "none"}}
+			{name: "d", format: "datetime", ty: "none"}, {name: "h", format: "hidden", ty: "none"}, {name: "dd", format: "date", ty: "none"}}
 		for _, f := range fmtNames {
 			if r.chance(1, 2) {
 				cols = append(cols, colDesc{name: "c_" + f, format: f, ty: pick(r, tyNames)})
@@ -112,7 +120,9 @@ func genC20(cw *caseWriter, seed uint64, tier string) {
 			go func(g int) {
 				defer wg.Done()
 				<-start
-				got[g] = concProgram(t, g, iters)
+				if p := guard(func() { got[g] = concProgram(t, g, iters) }); p != "" {
+					got[g] = "PANIC " + p
+				}
 			}(g)
 		}
 		close(start)
@@ -120,7 +130,10 @@ func genC20(cw *caseWriter, seed uint64, tier string) {
 		ref := buildTemplate(cols)
 		seq := make([]string, n)
 		for g := 0; g < n; g++ {
-			seq[g] = concProgram(ref, g, iters)
+			gg := g
+			if p := guard(func() { seq[gg] = concProgram(ref, gg, iters) }); p != "" {
+				seq[gg] = "PANIC(sequential) " + p
+			}
 		}
 		impl := "same"
 		for g := 0; g < n; g++ {
